@@ -51,17 +51,17 @@ Proof.
   apply fold_add_nonnull; [apply Ht; left; auto | intros; apply Ht; right; auto].
 Qed.
 
+(* the merge reducer is the plain addition: no side condition on the partial sums *)
 Lemma sum_from_merge (t1 t2 : list V) :
-  (forall x, In x t1 -> is_null o x = false) -> (forall x, In x t2 -> is_null o x = false) ->
   let a1 := sum_from o 0 (zero o) t1 in let c1 := len t1 in
   sum_from o c1 a1 t2 =
     (if len t2 =? 0 then a1
      else fst (r_sum o a1 (sum_from o 0 (zero o) t2) c1)).
 Proof.
-  intros H1 H2. simpl. destruct t2 as [|h t].
+  simpl. destruct t2 as [|h t].
   - simpl. unfold sum_from. destruct (len t1 =? 0); reflexivity.
-  - rewrite len_cons_nz. rewrite r_sum_nonnull by (apply sum_from0_nonnull; auto).
-    cbn [fst]. unfold truthy, sum_from at 1.
+  - rewrite len_cons_nz. unfold r_sum.
+    unfold truthy, sum_from at 1.
     destruct (len t1 =? 0) eqn:E; simpl.
     + reflexivity.
     + unfold sum_from at 2. simpl. apply fold_add_shift.
@@ -74,14 +74,14 @@ Lemma merges_nansum : merges (r_nansum o) (r_sum o) (zero o).
 Proof.
   intros l1 l2. rewrite series_app. rewrite !nansum_series by lia.
   unfold merge_pair. cbn [fst snd].
-  rewrite !Z.add_0_l. f_equal. apply sum_from_merge; apply nn_all_nonnull.
+  rewrite !Z.add_0_l. f_equal. apply sum_from_merge.
 Qed.
 
 Lemma merges_sum : (forall x, is_null o x = false) -> merges (r_sum o) (r_sum o) (zero o).
 Proof.
   intros Hnn l1 l2. rewrite series_app. rewrite !sum_series by (auto; lia).
   unfold merge_pair. cbn [fst snd].
-  rewrite !Z.add_0_l. f_equal. apply sum_from_merge; auto.
+  rewrite !Z.add_0_l. f_equal. apply sum_from_merge.
 Qed.
 
 Lemma merges_nansum_squares : merges (r_nansum_squares o) (r_sum o) (zero o).
@@ -89,9 +89,7 @@ Proof.
   intros l1 l2. rewrite series_app. rewrite !nansum_squares_series by lia.
   unfold merge_pair. cbn [fst snd].
   rewrite !Z.add_0_l. f_equal.
-  assert (Hsq : forall l x, In x (map (sq o) (nn l)) -> is_null o x = false).
-  { intros l x Hx. apply in_map_iff in Hx. destruct Hx as [y [<- Hy]]. apply (proj1 (proj2 SC)). now apply nn_nonnull in Hy. }
-  pose proof (sum_from_merge (map (sq o) (nn l1)) (map (sq o) (nn l2)) (Hsq l1) (Hsq l2)) as H. simpl in H.
+  pose proof (sum_from_merge (map (sq o) (nn l1)) (map (sq o) (nn l2))) as H. simpl in H.
   rewrite !map_length in H. exact H.
 Qed.
 
